@@ -83,6 +83,17 @@ def run(tier, seed):
         ds = (rnd.randint(y0, y1), rnd.randint(1, 12), rnd.randint(1, 28)) + rnd.choice([(), (7, 0, 0)])
         rt = 'FREQ=%s;SCALE=%s;BYMONTHDAY=%s;SHIFT=%d' % (rnd.choice(['YEARLY;BYMONTH=%d' % rnd.choice([1, 6, 11, 12]), 'MONTHLY']), sc, rnd.choice(['20', '1,29', '-1', '15,30']), rnd.choice([1, 5, 15, 40, 100, 366]) * (1 if fwd else -1))
         cases.append({'uid': 'e%d' % k, 'ds': rrgen.inst(ds), 'tz': False, 'rtext': rt, 'count': 0, 'until': [], 'ics': rrgen.event_ics('e%d' % k, ds, [rt]), 'maxpop': 130, 'mode': rnd.choice('np')})
+    # more zones in one process than the reader keeps open at a time (16), an event whose TZID names no zone among them, then again
+    # events of the zones before (consecutive cases stay in one process)
+    ZN = ['Europe/Berlin', 'America/New_York', 'Asia/Tokyo', 'Australia/Sydney', 'America/Sao_Paulo', 'Asia/Kolkata', 'Pacific/Auckland', 'America/Los_Angeles', 'Europe/London', 'Africa/Cairo',
+          'America/Chicago', 'Asia/Shanghai', 'Europe/Moscow', 'America/Denver', 'Asia/Dubai', 'Europe/Paris', 'Asia/Seoul', 'America/Toronto']
+    for rep in range(6 if tier == 'thorough' else 2):
+        seq = rnd.sample(ZN, rnd.choice([15, 16, 16, 17, 18]))
+        seq = seq + [rnd.choice(['Atlantis/Lost_City', 'Nowhere', 'Europe/Atlantis'])] + seq[-3:] + [seq[0]]
+        for j, zn in enumerate(seq):
+            ds = (2021, rnd.randint(1, 12), rnd.randint(1, 28), rnd.randint(0, 23), 0, 0)
+            rt = 'FREQ=DAILY;COUNT=150'
+            cases.append({'uid': 'z%d_%d' % (rep, j), 'ds': rrgen.inst(ds), 'tz': True, 'rtext': rt + ' @' + zn, 'count': 0, 'until': [], 'ics': rrgen.event_ics('z%d_%d' % (rep, j), ds, [rt], tzid=zn), 'maxpop': 200, 'mode': 'p'})
     calls = []
     for k in range(n):
         y = rnd.choice([1900, 1901, 1902, 1970, 2000, 2037, 2038, 2077, 2097, 2098, 2099] + rrgen.year_types()); m = rnd.randint(1, 12); d = rnd.choice([1, 28, 29, 30, 31]); d = min(d, rrgen.dim(y, m))
